@@ -232,17 +232,24 @@ EnvRegistered(c) ==
 \* the reapers keep no in-memory state: a restart re-instantiates the controllers
 Restart == /\ EnvStep /\ UNCHANGED <<now, claim, node, listed, bg>> /\ Hist([a |-> "Restart"])
 
-Next == /\ Len(h) < MaxLen
-        /\ \/ \E c \in Claims, f \in {"none", "delete"} : Expire(c, f)
-           \/ \E f \in {"none", "claimList", "provList", "delete"}, lf \in {{}} \cup {{c} : c \in Claims} \cup {Claims} : Gc(f, lf)
-           \/ \E c \in Claims, f \in {"none", "poolGet", "delete"} : Live(c, f)
-           \/ \E c \in Claims, f \in {"none", "claimList", "nodeList", "annotate", "delete"} : Repair(c, f)
-           \/ \E d \in Deadlines, o \in {-1, 0, 1} : Tick(d + o)
-           \/ \E c \in Claims : InstanceVanishes(c) \/ NodeGone(c) \/ UserDelete(c) \/ EnvLaunched(c) \/ EnvRegistered(c)
-           \/ \E c \in Claims, s \in ReadyVals : NodeReady(c, s)
-           \/ \E c \in Claims, s \in {"True", "False"} : DiskBad(c, s)
-           \/ \E sc \in {"p", "o"}, d \in {-1, 1} : BgFlip(sc, d)
-           \/ Restart
+\* one named disjunct per action, so that TLC's coverage reports each of them
+Bound == Len(h) < MaxLen
+DoExpire == Bound /\ \E c \in Claims, f \in {"none", "delete"} : Expire(c, f)
+DoGc == Bound /\ \E f \in {"none", "claimList", "provList", "delete"}, lf \in {{}} \cup {{c} : c \in Claims} \cup {Claims} : Gc(f, lf)
+DoLive == Bound /\ \E c \in Claims, f \in {"none", "poolGet", "delete"} : Live(c, f)
+DoRepair == Bound /\ \E c \in Claims, f \in {"none", "claimList", "nodeList", "annotate", "delete"} : Repair(c, f)
+DoTick == Bound /\ \E d \in Deadlines, o \in {-1, 0, 1} : Tick(d + o)
+DoInstanceVanishes == Bound /\ \E c \in Claims : InstanceVanishes(c)
+DoNodeGone == Bound /\ \E c \in Claims : NodeGone(c)
+DoUserDelete == Bound /\ \E c \in Claims : UserDelete(c)
+DoLaunched == Bound /\ \E c \in Claims : EnvLaunched(c)
+DoRegistered == Bound /\ \E c \in Claims : EnvRegistered(c)
+DoNodeReady == Bound /\ \E c \in Claims, s \in ReadyVals : NodeReady(c, s)
+DoDiskBad == Bound /\ \E c \in Claims, s \in {"True", "False"} : DiskBad(c, s)
+DoBgFlip == Bound /\ \E sc \in {"p", "o"}, d \in {-1, 1} : BgFlip(sc, d)
+DoRestart == Bound /\ Restart
+Next == DoExpire \/ DoGc \/ DoLive \/ DoRepair \/ DoTick \/ DoInstanceVanishes \/ DoNodeGone \/ DoUserDelete
+        \/ DoLaunched \/ DoRegistered \/ DoNodeReady \/ DoDiskBad \/ DoBgFlip \/ DoRestart
 Spec == Init /\ [][Next]_vars
 
 \* ---------------------------------------------------------------- properties of the closed model
